@@ -733,7 +733,7 @@ def make_element(el, root, tdir, clock):
 # ----------------------------------------------------------------------------------------------------
 # file system
 
-TEMPLATES = {"t1.tex": r"T1 \VAR{ output.filetype }", "t2.tex": r"T2 \VAR{ a }"}
+TEMPLATES = {"t1.tex": r"T1 \VAR{ a }|\VAR{ output }", "t2.tex": r"T2 \VAR{ a }"}
 
 
 def prepare_fs(fs, root):
@@ -791,12 +791,14 @@ def canon_model_fs(fs):
 # ----------------------------------------------------------------------------------------------------
 # encoding of what the real element yields
 
-def _plain(o, root):
-    """a context (or part of it) as plain JSON"""
+def _plain(o, root, depth=0):
+    """a context (or part of it) as plain JSON (a self-referential dictionary — aliasing cases — is cut off)"""
+    if depth > 30:
+        return "<deep>"
     if isinstance(o, dict):
-        return {str(k): _plain(v, root) for k, v in o.items()}
+        return {str(k): _plain(v, root, depth + 1) for k, v in o.items()}
     if isinstance(o, (list, tuple)):
-        return [_plain(v, root) for v in o]
+        return [_plain(v, root, depth + 1) for v in o]
     if isinstance(o, str):
         return _canon_str(o, root)
     if isinstance(o, (int, bool)) or o is None:
@@ -904,13 +906,15 @@ def norm_model_item(it, pipe=False, full=False):
     return out
 
 
-def enc_deep(o, root):
+def enc_deep(o, root, depth=0):
     """full canonical content of a value (for comparing the two real runs with each other)"""
     import lena.structures
+    if depth > 30:
+        return "<deep>"
     if isinstance(o, dict):
-        return {"dict": sorted(([str(k), enc_deep(v, root)] for k, v in o.items()), key=lambda kv: kv[0])}
+        return {"dict": sorted(([str(k), enc_deep(v, root, depth + 1)] for k, v in o.items()), key=lambda kv: kv[0])}
     if isinstance(o, (list, tuple)):
-        return {type(o).__name__: [enc_deep(v, root) for v in o]}
+        return {type(o).__name__: [enc_deep(v, root, depth + 1) for v in o]}
     if isinstance(o, str):
         return _canon_str(o, root)
     if isinstance(o, (int, bool)) or o is None:
@@ -918,7 +922,7 @@ def enc_deep(o, root):
     if isinstance(o, float):
         return {"float": repr(o)}
     if isinstance(o, lena.structures.histogram):
-        return {"histogram": [enc_deep(o.edges, root), enc_deep(o.bins, root)]}
+        return {"histogram": [enc_deep(o.edges, root, depth + 1), enc_deep(o.bins, root, depth + 1)]}
     if isinstance(o, lena.structures.graph):
         return {"graph": repr(o)}
     if hasattr(o, "id"):
@@ -1196,15 +1200,21 @@ def compare(case, res, replies):
         return f"model driver error: {m['err']}"
     is_pdf = case["el"]["k"] == "pdf"
     specs, a_idx = _flow_specs(case)
-    if m["flow"] != [2 * i for i in range(len(specs))]:
-        return f"Lean merge gives the flow {m['flow']}, Python gives {[2 * i for i in range(len(specs))]}"
+    toks = [2 * i for i in range(len(specs))]
+    for i, j, kind in case.get("alias", []):       # shared objects: the flow as it really is
+        if kind == "same":
+            specs[j], toks[j] = specs[i], toks[i]
+        elif specs[i].get("c") is not None and specs[j].get("c") is not None:
+            specs[j] = dict(specs[j], c=specs[i]["c"])
+    if m["flow"] != toks:
+        return f"Lean merge gives the flow {m['flow']}, Python gives {toks}"
     ref_sel = [ref_selected(case["el"], s) for s in specs]
     if m["sel"] != ref_sel:
         return f"selection predicate: model {m['sel']} vs documented rule {ref_sel}"
     pipe = case["el"]["k"] == "pipe"
     alias = bool(case.get("alias"))
     msg = (_cmp_run("interleaved flow", res["full"], m["run"], is_pdf, pipe, alias)
-           or _cmp_run("A alone", res["a"], m["a"], is_pdf, pipe, alias))
+           or (None if alias else _cmp_run("A alone", res["a"], m["a"], is_pdf, pipe)))
     if msg:
         return msg
     if alias:
